@@ -229,6 +229,31 @@ def run_shard(spec, acc):
                     if (ka, ga) != (kb, gb) and dbx.select(pgn, a) is dbx.select(pgn, b):
                         acc.violation("selection-depends-on-non-match-bits", f"PGN {pgn}: {ga} with {f.id} = {v}, {gb} with {f.id} = {(v + 2) & f.mask}: the two payloads are equal on all match positions",
                                       {"pgn": pgn, "a": a.to_bytes(nb_p, "little").hex(), "b": b.to_bytes(nb_p, "little").hex()})
+        # one field outside the match positions at a time, at the codes field decoders treat specially (the reserved codes at
+        # the top of its range, zero): whatever the field decoder makes of them (a value, 'not available', an error), the
+        # payload is never handed to ANOTHER definition
+        if d.fixed_layout and d.supported:
+            base_p = dbx.pack(d, gen.base_raws(d, rng, dbx))
+            if dbx.select(pgn, base_p) is d:
+                nb_p = d.length if d.length is not None else (d.total_bits() + 7) // 8
+                k0, g0 = observe(dec, pgn, base_p, nb_p)
+                for f in d.fields:
+                    if f.bits is None or f.off is None or f.match is not None or f.bits < 2 or f.bits > 64:
+                        continue
+                    for v in (f.mask - 1, f.mask - 2, f.mask, 0, f.mask >> 1, (f.mask >> 1) + 1):
+                        if v < 0:
+                            continue
+                        b = (base_p & ~(f.mask << f.off)) | (v << f.off)
+                        if dbx.select(pgn, b) is not d:
+                            continue
+                        kb, gb = observe(dec, pgn, b, nb_p)
+                        acc.count("single_field_special_code_selections_compared")
+                        if kb == "msg" and gb != d.id:
+                            acc.violation("selection-depends-on-non-match-bits", f"PGN {pgn}: with {f.id} = {v:#x} (all match positions as {d.id} prescribes) the payload "
+                                          f"comes back as {gb}", {"pgn": pgn, "a": base_p.to_bytes(nb_p, "little").hex(), "b": b.to_bytes(nb_p, "little").hex(), "field": f.id})
+                        elif kb == "none" and k0 == "msg":
+                            acc.violation("no-message-for-matching-definition", f"PGN {pgn}: prescribed {d.id} but nothing returned with {f.id} = {v:#x}",
+                                          {"pgn": pgn, "payload_hex": b.to_bytes(nb_p, "little").hex(), "built_for": d.id, "field": f.id})
         # pairs differing only outside match fields must select the same definition
         mm = 0
         for (off, bits) in positions:
